@@ -73,6 +73,7 @@ func checkC03(c *Ctx) {
 	r.Selftest["smtp-roles"] = m.describe()
 	c.c03Sequence("C03", m, t)
 	c.c03Reset("C03", m, t)
+	c.c03ResetRestores("C03", m, t)
 	c.c03Replies(m, t)
 	c.c03Greeting(m, t)
 	c.c03Index(m)
@@ -130,6 +131,7 @@ func checkC03(c *Ctx) {
 	}
 	c.c01Atomic("C03/ATOMIC", m)
 	c.c03ReadError("C03/ATOMIC/read-error", m)
+	c.dataReadErrorVerdict("C03/ATOMIC/read-error-verdict", m)
 	c.c03OneReader(m)
 }
 
@@ -513,4 +515,104 @@ func (c *Ctx) c03Greeting(m *smtpModel, t *smtpTS) {
 		}
 	}
 	r.Floor("C03/TS/greeting", "transitions out of GREET", n, 1)
+}
+
+// sessionFieldWritten: the Session field an instruction writes — a store to the field, or an
+// update of the map / slice element / record the field holds.
+func (m *smtpModel) sessionFieldWritten(in ssa.Instruction) *types.Var {
+	ofSession := func(fa *ssa.FieldAddr) bool {
+		pt, ok := fa.X.Type().Underlying().(*types.Pointer)
+		return ok && types.Identical(pt.Elem(), m.sess)
+	}
+	fieldOfLoad := func(v ssa.Value) *types.Var {
+		u, ok := v.(*ssa.UnOp)
+		if !ok || u.Op != token.MUL {
+			return nil
+		}
+		if fa, ok := u.X.(*ssa.FieldAddr); ok && ofSession(fa) {
+			return eng.FieldOfAddr(fa)
+		}
+		return nil
+	}
+	switch x := in.(type) {
+	case *ssa.Store:
+		switch a := x.Addr.(type) {
+		case *ssa.FieldAddr:
+			if _, fresh := a.X.(*ssa.Alloc); fresh {
+				return nil
+			}
+			if ofSession(a) {
+				return eng.FieldOfAddr(a)
+			}
+			// a field of a record Session holds by value (s.env.from)
+			if inner, ok := a.X.(*ssa.FieldAddr); ok && ofSession(inner) {
+				return eng.FieldOfAddr(inner)
+			}
+		case *ssa.IndexAddr:
+			return fieldOfLoad(a.X)
+		}
+	case *ssa.MapUpdate:
+		return fieldOfLoad(x.Map)
+	case *ssa.Call:
+		if b, ok := x.Call.Value.(*ssa.Builtin); ok && (b.Name() == "delete" || b.Name() == "clear") && len(x.Call.Args) > 0 {
+			return fieldOfLoad(x.Call.Args[0])
+		}
+	}
+	return nil
+}
+
+// c03ResetRestores: whatever a transaction changes in the session, the envelope reset undoes.
+// Every Session field that is written while a transaction is open (state MAIL or DATA) —
+// directly, or through the map, slice or record it holds — is part of the transaction's state
+// (a seen-set of recipients, a declared size, a counter); if the reset does not write it on
+// every path, the next transaction on the same connection starts with what the previous one
+// left there, whether it was delivered, refused or reset.
+func (c *Ctx) c03ResetRestores(pfx string, m *smtpModel, t *smtpTS) {
+	r, p := c.R, c.P
+	rule := pfx + "/TS/reset-restores"
+	r.Rule(rule, "typestate: every Session field written (itself, or the map/slice/record it holds) under state MAIL or DATA, or by the activation that goes on to enter MAIL, is written by the envelope reset on every path")
+	open := map[int64]bool{m.states["MAIL"]: true, m.states["DATA"]: true}
+	type wr struct {
+		f    *types.Var
+		site ssa.Instruction
+	}
+	var fields []wr
+	seen := map[*types.Var]bool{}
+	for _, fn := range m.fns {
+		fn := fn
+		eng.EachInstr(fn, func(in ssa.Instruction) {
+			f := m.sessionFieldWritten(in)
+			if f == nil || seen[f] || eng.SameField(f, m.fState) {
+				return
+			}
+			for _, cfg := range t.ts.ConfigsAt(in) {
+				if open[cfg.A] {
+					seen[f] = true
+					fields = append(fields, wr{f, in})
+					return
+				}
+			}
+			// written on the way into the transaction: the activation that stores it goes on
+			// to enter MAIL (the sender, a declared size)
+			if len(t.ts.ConfigsAt(in)) > 0 && (&eng.Search{Target: m.entersState("MAIL")}).After(in) != nil {
+				seen[f] = true
+				fields = append(fields, wr{f, in})
+			}
+		})
+	}
+	sort.Slice(fields, func(i, j int) bool { return fields[i].f.Name() < fields[j].f.Name() })
+	for _, w := range fields {
+		w := w
+		writes := func(in ssa.Instruction) bool {
+			if st, ok := in.(*ssa.Store); ok && m.zeroesEnvelope(st) && m.fHolder != nil && eng.SameField(w.f, m.fHolder) {
+				return true
+			}
+			return eng.SameField(m.sessionFieldWritten(in), w.f)
+		}
+		ret := (&eng.Search{Target: eng.IsReturn, Avoid: writes, Deep: true}).FromEntry(m.reset)
+		r.Check(ret == nil, rule, "field:"+w.f.Name(), p.InstrPos(w.site),
+			"Session."+w.f.Name()+" is written while a transaction is open and the envelope reset writes it on every path",
+			"Session."+w.f.Name()+" is written while a transaction is open ("+p.InstrPos(w.site)+") but the envelope reset "+shortFn(m.reset)+" can return without writing it: what one transaction leaves there (after delivery, refusal or RSET) is inherited by the next transaction on the same connection")
+	}
+	r.Floor(rule, "Session fields written under MAIL/DATA", len(fields), 1)
 }
